@@ -2,7 +2,7 @@
 import random
 from fractions import Fraction
 from . import core, sketchcheck, storecheck
-from .sketchgen import Builder, mapspec, STORES, rand_values
+from .sketchgen import Builder, mapspec, STORES, rand_values, spec_list
 from .core import f2h, parse_F, h2f
 
 KINDS = STORES + ["pag", "low:8", "high:16", "low:128"]
@@ -43,7 +43,7 @@ def build(rng, facts, name):
 def run(tier, seed):
     rng = random.Random(seed)
     ok, log = core.build_vrun()
-    specs = [mapspec(rng)[0] for _ in range(10 if tier == "quick" else 40)]
+    specs = spec_list(rng, 10 if tier == "quick" else 40)
     facts = sketchcheck.learn_specs("C16", specs) if ok else {}
     builders = [build(rng, facts, "r%d" % i) for i in range(350 if tier == "quick" else 9000)] if facts else []
     return sketchcheck.run_sketch_property(
